@@ -68,6 +68,15 @@ structure SectionT (K : Type) where
   t_m : K
 deriving Repr, BEq, DecidableEq
 
+/-- `Bounds<Coord2>` -/
+structure Bounds2 (K : Type) where
+  min_ : V2 K
+  max_ : V2 K
+deriving Repr, BEq, DecidableEq
+
+/-- `Coordinate::get` on a 2-D point -/
+def getc {K : Type} (p : V2 K) (i : Nat) : K := if i == 0 then p.x else p.y
+
 /-- `f64::abs` -/
 class FAbs (K : Type) where fabs : K → K
 export FAbs (fabs)
